@@ -94,13 +94,15 @@ Proof.
 Qed.
 Print Assumptions C25_level1_is_lefthand.
 
-(* the linear fast path and the level filter over the merge-sorted path list the same revisions *)
+(* the linear fast path and the level filter over the merge-sorted path give the
+   same entries: revisions, revnos and depths (the mainline numbering of the merge
+   sort is the position in the left-hand history: Theory/DagMergeSortMainline.v) *)
 Theorem C25_linear_eq_graph :
   forall b (t : revid), wf_dag (br_g b) = true -> br_tip b = Some t ->
   t < length (br_g b) -> lefthand_present (br_g b) t = true ->
-  map v_id (filter (fun v => v_depth v <? 1) (fst (log_revisions b None None false 0 0 false))) =
-  map v_id (fst (log_revisions b None None false 1 0 false)).
-Proof. exact linear_eq_graph_whole. Qed.
+  filter (fun v => v_depth v <? 1) (fst (log_revisions b None None false 0 0 false)) =
+  fst (log_revisions b None None false 1 0 false).
+Proof. exact linear_eq_graph_whole_full. Qed.
 Print Assumptions C25_linear_eq_graph.
 
 (* ---- ranges ---------------------------------------------------------------------------------- *)
